@@ -43,6 +43,14 @@ def run(repo: Repo, chk: Check) -> None:
 def _cond(test: ast.expr, case: dict, var: str):
     """True / False / None (unknown) of a branch condition for an abstract switch"""
     t = norm.canon(test)
+    m = norm.match(T(f"isinstance({var}, $c)"), t)
+    if m is not None:
+        # one class, a tuple of classes or a `A | B` union
+        names = [ast.unparse(c_).split(".")[-1] for c_ in norm._isinstance_classes(m["c"])]
+        mine = "ChooseOp" if case["kind"] == "choose" else "MuxOp"
+        if mine in names:
+            return True
+        return False if set(names) <= {"ChooseOp", "MuxOp"} else None
     m = norm.any_match([f"isinstance({var}, phs.ChooseOp)", f"isinstance({var}, ChooseOp)"], t)
     if m is not None:
         return case["kind"] == "choose"
@@ -185,12 +193,27 @@ def order(repo: Repo, chk: Check) -> None:
             lists.add(s.node.func.value.id)  # type: ignore[attr-defined]
     ok_ret = False
     ret_name = None
+    comp_in_place = False
     for s in rets:
         v = s.node.value
         inner = v.args[1] if isinstance(v, ast.Call) and callee_name(v) == "cast" and len(v.args) == 2 else v
         if isinstance(inner, ast.Name) and inner.id in lists:
             ok_ret = True
             ret_name = inner.id
+        # the replacement done while copying: `[mapping[sw] if isinstance(sw, MuxOp) else sw for sw in <that list>]` keeps every position
+        if isinstance(inner, ast.ListComp) and len(inner.generators) == 1 and not inner.generators[0].ifs and isinstance(inner.generators[0].target, ast.Name) \
+                and isinstance(inner.generators[0].iter, ast.Name) and inner.generators[0].iter.id in lists and isinstance(inner.elt, ast.IfExp):
+            sw_ = inner.generators[0].target.id
+            ie = inner.elt
+            test_, mux_v, other_v = norm.canon(ie.test), ie.body, ie.orelse
+            if norm.is_not(test_):
+                test_, mux_v, other_v = test_.operand, ie.orelse, ie.body  # type: ignore[attr-defined]
+            mv_ = norm.match(T(f"$map[{sw_}]"), mux_v)
+            if norm.any_match([f"isinstance({sw_}, phs.MuxOp)", f"isinstance({sw_}, MuxOp)"], test_) is not None and mv_ is not None \
+                    and isinstance(other_v, ast.Name) and other_v.id == sw_:
+                ok_ret = True
+                ret_name = inner.generators[0].iter.id
+                comp_in_place = depends_on(fl.cone(mv_["map"], s, inline=0), "search_mapping($a, $b, $c)")
     chk.result(ok_ret, "C20.decode-order", f"{f.key}:returned-list", rets[0].where() if rets else f.where,
                "the returned list is the one filled switch by switch in PE order",
                f"the returned value `{ast.unparse(rets[0].node.value)[:100] if rets else None}` is not the list that was filled in get_switches() order: "
@@ -208,6 +231,7 @@ def order(repo: Repo, chk: Check) -> None:
             mv = norm.match(T(f"$map[{sw}]"), s.node.value)
             from_search = mv is not None and depends_on(fl.cone(mv["map"], s, inline=0), "search_mapping($a, $b, $c)")
             ok_r = ast.unparse(t) == f"{ret_name}[{i}]" and from_search and bool(has_fact(s, [f"isinstance({sw}, phs.MuxOp)", f"isinstance({sw}, MuxOp)"]))
+    ok_r = ok_r or comp_in_place
     chk.result(ok_r, "C20.decode-order", f"{f.key}:in-place", repl[0].where() if repl else f.where, "a mux placeholder at index i is replaced by mapping[that mux] at index i",
                "mux placeholders are not replaced in place by the value found for that mux")
 
